@@ -523,6 +523,8 @@ func shapeKey(res []interface{}) string {
 			sb.WriteString("b;")
 		case int64:
 			fmt.Fprintf(&sb, "i%d;", x)
+		case float64:
+			fmt.Fprintf(&sb, "f%x;", x)
 		case []string:
 			fmt.Fprintf(&sb, "l%d;", len(x))
 		case nil:
@@ -599,6 +601,8 @@ func (e *Engine) mergeLifted(combos []lifted) Value {
 				out[i] = boolVal(t)
 			}
 		case int64:
+			out[i] = x
+		case float64:
 			out[i] = x
 		case []string:
 			elems := make([]Value, len(x))
@@ -760,6 +764,25 @@ func init() {
 				return []interface{}{n, errOrNil(err)}
 			})
 		},
+		"strconv.ParseFloat": func(e *Engine, a []Value) Value {
+			return e.liftPure(a, func(c []interface{}) []interface{} {
+				f, err := strconv.ParseFloat(c[0].(string), int(c[1].(int64)))
+				return []interface{}{f, errOrNil(err)}
+			})
+		},
+		"(encoding/json.Number).Int64": func(e *Engine, a []Value) Value {
+			return e.liftPure(a, func(c []interface{}) []interface{} {
+				n, err := strconv.ParseInt(c[0].(string), 10, 64)
+				return []interface{}{n, errOrNil(err)}
+			})
+		},
+		"(encoding/json.Number).Float64": func(e *Engine, a []Value) Value {
+			return e.liftPure(a, func(c []interface{}) []interface{} {
+				f, err := strconv.ParseFloat(c[0].(string), 64)
+				return []interface{}{f, errOrNil(err)}
+			})
+		},
+		"(encoding/json.Number).String": func(e *Engine, a []Value) Value { return a[0] },
 		"path/filepath.Base": s1(func(s string) string { return s[strings.LastIndex(s, "/")+1:] }),
 	}
 }
